@@ -256,6 +256,16 @@ class Sym:
         if z3.is_int(s.t):
             return ctx().concretize_int(s.t)
         raise Inconclusive('int() of a symbolic real')
+    def __ceil__(s):
+        if z3.is_int(s.t): return s
+        n = ctx().fresh('ceil', 'int')
+        ctx().assume(z3.And(z3.ToReal(n.t) >= s.t, z3.ToReal(n.t) - 1 < s.t))
+        return n
+    def __floor__(s):
+        if z3.is_int(s.t): return s
+        n = ctx().fresh('floor', 'int')
+        ctx().assume(z3.And(z3.ToReal(n.t) <= s.t, z3.ToReal(n.t) + 1 > s.t))
+        return n
     def __float__(s):
         v = _numval(z3.simplify(s.t))
         if v is not None:
@@ -344,7 +354,8 @@ class Stats:
 
 
 class Ctx:
-    def __init__(self, decisions, stats, timeout_ms, export_every=0, stop_at_first=True):
+    def __init__(self, decisions, stats, timeout_ms, export_every=0, stop_at_first=True, eqs_first=False):
+        self.eqs_first = eqs_first
         self.decisions = decisions     # list of [kind, value]; kind 'T' = alternative still open
         self.pos = 0
         self.pc = []
@@ -370,6 +381,14 @@ class Ctx:
             r = self.solver.check()
             m = self.solver.model() if r == z3.sat else None
             self.solver.pop()
+        if r == z3.unknown and self.eqs_first:
+            # small portfolio: equation solving + the SMT core first (decides "equal up to rearrangement of
+            # (non)linear monomials" instantly where the default strategy can spend a minute), then the default solver
+            s = _PORTFOLIO_FIRST.solver()
+            s.set('timeout', min(3000, self.cur_timeout_ms))
+            s.add(*self.pc); s.add(*extra)
+            r = s.check()
+            m = s.model() if r == z3.sat else None
         if r == z3.unknown:
             s = z3.Solver()
             s.set('timeout', self.cur_timeout_ms)
@@ -496,10 +515,13 @@ class Ctx:
 
     def witness(self, name='reach'):
         """vacuity guard: the path reaching this point must be satisfiable"""
-        r, _ = self._check()
+        r, _ = self._check(fresh=True)
         d = self.stats.obligations.setdefault('reach:' + name, {'unsat': 0, 'sat': 0, 'unknown': 0})
         d[r] += 1
         return r == 'sat'
+
+
+_PORTFOLIO_FIRST = z3.Then('simplify', 'solve-eqs', 'smt')
 
 
 class _StopExploration(BaseException):
@@ -507,7 +529,7 @@ class _StopExploration(BaseException):
 
 
 def explore(fn, timeout_ms=30000, max_paths=20000, export_every=0, stop_at_first=True, wall_budget_s=None,
-            catch_exceptions=True):
+            catch_exceptions=True, eqs_first=False):
     """Run `fn(ctx)` once per feasible path.  `fn` creates its symbolic inputs (plain z3 consts
     wrapped in Sym), calls ctx.assume(...) for preconditions, runs the code under test and states
     obligations with ctx.check(...).  Returns Stats."""
@@ -518,7 +540,7 @@ def explore(fn, timeout_ms=30000, max_paths=20000, export_every=0, stop_at_first
     prev = _CTX
     try:
         while True:
-            c = Ctx(decisions, stats, timeout_ms, export_every, stop_at_first)
+            c = Ctx(decisions, stats, timeout_ms, export_every, stop_at_first, eqs_first)
             _CTX = c
             try:
                 fn(c)
